@@ -421,6 +421,7 @@ func c11worldRun(toks []string) (res c11wres) {
 		return
 	}
 	cfg := spy.Instance.Config()
+	c11authStats(cfg.Frontend(), res.stats)
 	store := func() string {
 		return "H=" + c11hostsTok(cfg.Hosts().Items(), mem) + "!B=" + c11backsTok(cfg.Backends().Items())
 	}
@@ -709,6 +710,18 @@ func runC11world(c *ctx, r *gen.Rng) {
 	}
 	for i := 0; i < n; i++ {
 		cases = append(cases, c11worldHistory(r, i))
+	}
+	// external authentication with holes in the auth proxy port list (c11authp.go)
+	for _, h := range c11authCorpus {
+		cases = append(cases, strings.Fields(h))
+	}
+	na := 40
+	if c.thorough() {
+		na = 400
+	}
+	ra := gen.New(c.seed ^ 0xc11a)
+	for i := 0; i < na; i++ {
+		cases = append(cases, c11authHistory(ra, i))
 	}
 	res := c11worldPool(c, cases)
 	// minimise what the harness-side reading of the Spec rejects: the minimal history is emitted as one more case
